@@ -37,7 +37,8 @@ class _Gen:
         kw = {}
         if w < 0.45:      # series reductions -> scalar (or Series for value_counts / describe)
             fn = _pick(r, ["sum", "mean", "count", "min", "max", "std", "var", "nunique", "value_counts", "value_counts",
-                           "describe", "any", "all", "size", "median_approximate", "unique", "mode"])
+                           "value_counts", "value_counts", "describe", "any", "all", "size", "median_approximate", "unique",
+                           "mode"])
             cols = {"sum": "acdne", "mean": "acdn", "count": "abcdetknm", "min": "acdnt", "max": "acdnbt", "std": "acd",
                     "var": "acd", "nunique": "abcdkn", "value_counts": "abekn", "describe": "acd", "any": "em",
                     "all": "e", "size": "ab", "median_approximate": "acd", "unique": "abk", "mode": "ab"}[fn]
@@ -49,7 +50,7 @@ class _Gen:
             if fn == "value_counts":
                 if r.random() < 0.4:
                     kw["sort"] = bool(r.getrandbits(1))
-                if r.random() < 0.3:
+                if r.random() < 0.5:
                     kw["normalize"] = True
                 if r.random() < 0.3:
                     kw["dropna"] = bool(r.getrandbits(1))
